@@ -15,6 +15,7 @@ EXPLANATION = (
     '(R5 also: the gate whose owner receives the message is the gate the walk last entered; R7 also: sending on a gate handle (GateRef / GateRefWeak) sends on exactly that gate.) '
     '(R8) Gate::path_iter hands out the unbounded hop-by-hop walker (no take/filter, no hop counter). '
     "(R4 also: the already-connected return writes nothing; R9, shared with C07.R4: the idle path of a hop's channel.) "
+    "(R10) the channel a hop is charged on is the channel of the connection the walk takes. "
     "Decides these necessary conditions only; not arrival-time sums over all chain shapes.")
 ASSUMPTIONS = ["gates are only wired through Gate::connect (slot table private)"]
 
@@ -30,8 +31,8 @@ def _root_arg(t):
     return None
 
 
-def r1_cross_wiring(ctx):
-    ctx.set_rule('C08.R1')
+def r1_cross_wiring(ctx, rule='C08.R1'):
+    ctx.set_rule(rule)
     f = ctx.anchor(G + 'Gate::connect')
     if not f:
         return
